@@ -258,6 +258,11 @@ class Engine:
         chk = self.chk
         site = site_of(fn, ob.get("line"))
         rule = "PF." + ("assert" if ob["kind"] == "assert" else "call")
+        # where the construct itself is (verdicts that blame a caller carry the caller's site instead)
+        cl = chk.__dict__.setdefault("construct_lines", {})
+        sp = fn.get("body_span") or fn.get("span") or {}
+        if sp.get("file") and ob.get("line"):
+            cl.setdefault(sp["file"], set()).add(ob["line"])
         if ob["ok"]:
             chk.ok(rule, key, ob.get("how") or "abstract interpretation (interval / relation / variant fact)", site)
             return
